@@ -33,16 +33,17 @@ fn mat_str(x: &Mat) -> String {
     format!("[{}]", x.iter().map(|r| format!("[{}]", r.iter().map(|v| format!("{}", v)).collect::<Vec<_>>().join(","))).collect::<Vec<_>>().join(","))
 }
 
-/// One configuration on one (X, y): decides the domain, runs the checks, counts.
-fn run_config(xi: &XInfo, y: &[f64], cfg: usize, label: &dyn Fn() -> String) {
+/// One configuration on one (X, y): decides the domain, runs the checks, counts. Returns what the
+/// library returned (None when the configuration is outside the domain for this X).
+fn run_config(xi: &XInfo, y: &[f64], cfg: usize, label: &dyn Fn() -> String) -> Option<check::Observed> {
     let lim = xi.w.cond_limit();
     let cx = Ctx { xi, y, label };
     let f32c = xi.w == W::F32;
-    let nontrivial = match cfg {
+    let obs = match cfg {
         0 => {
             if !xi.a_full_rank || !(xi.kappa_a() <= lim) {
                 mc::count("skipped_ols_design_rank_deficient_or_cond_over_limit");
-                return;
+                return None;
             }
             mc::count("ols_cases");
             if f32c {
@@ -58,18 +59,18 @@ fn run_config(xi: &XInfo, y: &[f64], cfg: usize, label: &dyn Fn() -> String) {
             let alpha = gen::ALPHAS[(c - 1) % 4];
             if !xi.x_full_rank || !(xi.kappa_x() <= lim) {
                 mc::count("skipped_ridge_x_rank_deficient_or_cond_over_limit");
-                return;
+                return None;
             }
             if normalize {
                 // standardisation is defined only for non-constant columns; [X 1] full rank implies that
                 if !xi.a_full_rank || xi.z.is_none() {
                     mc::count("skipped_ridge_norm_on_constant_column");
-                    return;
+                    return None;
                 }
                 // the centred data keep fewer than 3 digits in this width: the standardised objective is not resolved
                 if xi.kappa_s * xi.w.eps() > 1e-3 {
                     mc::count("skipped_ridge_norm_on_unresolved_in_width");
-                    return;
+                    return None;
                 }
                 mc::count("ridge_norm_on_cases");
             } else {
@@ -87,9 +88,17 @@ fn run_config(xi: &XInfo, y: &[f64], cfg: usize, label: &dyn Fn() -> String) {
     if xi.mu.iter().any(|m| *m != 0.0) {
         mc::count("nonzero_column_mean");
     }
-    if nontrivial {
+    if obs.nontrivial {
         mc::nontrivial();
         mc::count("nonzero_model");
+    }
+    Some(obs)
+}
+
+fn obs_json(o: &Option<check::Observed>) -> mc::Value {
+    match o {
+        None => json!("configuration outside the domain for this X (skipped, counted)"),
+        Some(o) => json!(o.models.iter().map(|(s, w, b)| json!({"solver": s, "coefficients": w, "intercept": b})).collect::<Vec<_>>()),
     }
 }
 
@@ -113,26 +122,27 @@ fn lattice_case(job: &Job) {
     for e in 0..n * p {
         idx.push(if e < fixed.len() { fixed[e] } else { mc::choose(k) });
     }
-    let xb: Vec<Vec<i64>> = (0..n).map(|i| (0..p).map(|j| gen::SIGMA4[idx[i * p + j]]).collect()).collect();
-    let x_raw: Mat = xb.iter().map(|r| r.iter().map(|v| ax * *v as f64 + cx_).collect()).collect();
+    let x_raw: Mat = (0..n).map(|i| (0..p).map(|j| ax * gen::SIGMA4[idx[i * p + j]] as f64 + cx_).collect()).collect();
     // exact ranks of the matrix the library sees: 8 * (a v + c) is an integer for every seed map
-    let x8: Vec<Vec<i64>> = x_raw.iter().map(|r| r.iter().map(|v| (v * 8.0) as i64).collect()).collect();
-    debug_assert!(x_raw.iter().flatten().all(|v| (v * 8.0).fract() == 0.0));
-    let ranks = gen::exact_ranks(&x8);
-    if !ranks.0 {
+    let ranks = || {
+        let x8: Vec<Vec<i64>> = x_raw.iter().map(|r| r.iter().map(|v| (v * 8.0) as i64).collect()).collect();
+        assert!(x_raw.iter().flatten().all(|v| (v * 8.0).fract() == 0.0));
+        gen::exact_ranks(&x8)
+    };
+    let xi = gen::xinfo(&x_raw, w, Some(&ranks));
+    if !xi.x_full_rank {
         // X itself rank deficient: outside the statement for every model
         mc::count("skipped_lattice_x_rank_deficient");
         mc::describe(|| json!({"space": "lattice", "X": x_raw, "skipped": "rank(X) < p (exact)"}));
         return;
     }
-    let xi = gen::xinfo(&x_raw, w, Some(ranks));
     let y: Vec<f64> = (0..n).map(|_| ay * gen::YALPHA[mc::choose(3)] as f64 + cy).collect();
     let cfg = mc::choose(N_CONFIGS);
     let label = || format!("lattice {} X={} y={:?}", w.name(), mat_str(&xi.x), y);
-    run_config(&xi, &y, cfg, &label);
+    let obs = run_config(&xi, &y, cfg, &label);
     mc::describe(|| {
-        json!({"space": "lattice", "width": w.name(), "X": xi.x, "y": y, "config": config_name(cfg),
-               "rank_X_full": ranks.0, "rank_X1_full": ranks.1, "cond_X1": xi.kappa_a(), "cond_X": xi.kappa_x()})
+        json!({"space": "lattice", "observed": obs_json(&obs), "width": w.name(), "X": xi.x, "y": y, "config": config_name(cfg),
+               "rank_X_full": xi.x_full_rank, "rank_X1_full": xi.a_full_rank, "cond_X1": xi.kappa_a(), "cond_X": xi.kappa_x()})
     });
 }
 
@@ -167,9 +177,9 @@ fn structured_case(job: &Job) {
     if sp != 0 {
         mc::count("structured_nonunit_column_scales");
     }
-    run_config(&xi, &y, cfg, &label);
+    let obs = run_config(&xi, &y, cfg, &label);
     mc::describe(|| {
-        json!({"space": "structured", "width": w.name(), "design": design, "n": n, "p": p, "column_scales": sname, "column_means": mname,
+        json!({"space": "structured", "observed": obs_json(&obs), "width": w.name(), "design": design, "n": n, "p": p, "column_scales": sname, "column_means": mname,
                "target": gen::ytype_name(yt), "config": config_name(cfg), "cond_X1": xi.kappa_a(), "cond_X": xi.kappa_x(), "max_mean_over_std": xi.kappa_s - 1.0,
                "X_first_rows": xi.x.iter().take(4).collect::<Vec<_>>(), "y_first": y.iter().take(4).collect::<Vec<_>>()})
     });
